@@ -489,6 +489,13 @@ class Model20(object):
             return self.call(node[1], node[2])
         raise ValueError(node)
 
+    def conv(self, val, sigil):
+        if sigil == '%' and val[0] == 'n' and val[1] is UNK:
+            # an unknown number (e.g. the machine infinity a soft division by zero left in a variable)
+            # may or may not fit an integer: the outcome of the statement is unknown
+            self.soft += 1
+        return conv_to(val, sigil)
+
     def call(self, fn, args):
         if fn not in self.defs:
             raise BErr(18)
@@ -497,7 +504,7 @@ class Model20(object):
             raise BErr(2)
         vals = []
         for a, p in zip(args, params):
-            vals.append(conv_to(self.ev(a), _sig(p)))
+            vals.append(self.conv(self.ev(a), _sig(p)))
         if any(f[0] == fn for f in self.frames):
             self.recursed = True
             raise BErr(7)
@@ -519,7 +526,7 @@ class Model20(object):
         self.depth_max = max(self.depth_max, len(self.frames))
         try:
             res = self.ev(self.defs[fn])
-            return conv_to(res, _sig(fn))
+            return self.conv(res, _sig(fn))
         finally:
             self.frames.pop()
             for p, v in saved.items():
@@ -1795,8 +1802,10 @@ class Model21(object):
         elif k == 'selb':
             self.B = sem[1]
         elif k == 'stop':
-            if p[0] == 'D':
-                raise Unspec()        # STOP in a direct line: nothing to continue, left out
+            if p[0] == 'D' or self.direct_phase:
+                # STOP in a direct line, or in program code entered from a direct line: where CONT
+                # continues then is not this property's subject (and quirky in GW-BASIC): left out
+                raise Unspec()
             self.do_break(p[1])
         elif k == 'onkey':
             if self.line_ptr(T0) is None:
